@@ -454,7 +454,16 @@ var ruleG2 = &Rule{
 					obls = append(obls, Obl{Key: key, Pos: c.pos(call.Pos()), Status: Violation,
 						Msg: "the start-minus-30-minutes formatter is used as the " + where + ": a window ending in the first half hour of a UTC day loses that day's index rows"})
 				default:
-					obls = append(obls, Obl{Key: key, Pos: c.pos(call.Pos()), Status: Info, Msg: "not inside a sql comparison constructor"})
+					// the formatted date travels through locals / a helper's results before it is compared: follow the value
+					switch v, w := c.g2Follow(fi, call); v {
+					case OK:
+						obls = append(obls, Obl{Key: key, Pos: c.pos(call.Pos()), Status: OK, Msg: "lower bound (" + w + ")"})
+					case Violation:
+						obls = append(obls, Obl{Key: key, Pos: c.pos(call.Pos()), Status: Violation,
+							Msg: "the start-minus-30-minutes formatter is used as the " + w + ": a window ending in the first half hour of a UTC day loses that day's index rows"})
+					default:
+						obls = append(obls, Obl{Key: key, Pos: c.pos(call.Pos()), Status: Info, Msg: "not inside a sql comparison constructor"})
+					}
 				}
 				return true
 			})
@@ -464,6 +473,129 @@ var ruleG2 = &Rule{
 }
 
 var _ = token.NoPos
+
+// g2Follow: where does the result of the margin-formatter call at this syntax position end up? Followed forward over SSA through
+// conversions, sql.NewStringVal and other value wrappers of the sql package, locals, merges and the results of the enclosing
+// function (to its call sites, by result index). Reaching sql.Le / Lt / Eq / Neq, or the left operand of Ge / Gt, is a violation;
+// only right operands of Ge / Gt is OK; nothing reached is undecided ("").
+func (c *Ctx) g2Follow(fi *FuncInfo, call *ast.CallExpr) (string, string) {
+	fn := c.ssaFuncOf(fi)
+	if fn == nil {
+		return "", ""
+	}
+	var start ssa.Value
+	var find func(f *ssa.Function)
+	find = func(f *ssa.Function) {
+		for _, b := range f.Blocks {
+			for _, ins := range b.Instrs {
+				if sc, ok := ins.(*ssa.Call); ok && sc.Pos() == call.Lparen {
+					start = sc
+				}
+			}
+		}
+		for _, af := range f.AnonFuncs {
+			find(af)
+		}
+	}
+	find(fn)
+	if start == nil {
+		return "", ""
+	}
+	verdict, where := "", ""
+	seen := map[ssa.Value]bool{}
+	var follow func(v ssa.Value, d int)
+	follow = func(v ssa.Value, d int) {
+		if v == nil || seen[v] || d > 12 || v.Referrers() == nil {
+			return
+		}
+		seen[v] = true
+		for _, r := range *v.Referrers() {
+			switch x := r.(type) {
+			case *ssa.Phi, *ssa.MakeInterface, *ssa.ChangeInterface, *ssa.ChangeType, *ssa.Convert, *ssa.Extract:
+				follow(x.(ssa.Value), d+1)
+			case *ssa.Store:
+				if x.Val != v {
+					continue
+				}
+				switch a := x.Addr.(type) {
+				case *ssa.Alloc:
+					if a.Referrers() != nil {
+						for _, rr := range *a.Referrers() {
+							switch y := rr.(type) {
+							case *ssa.UnOp:
+								follow(y, d+1)
+							case *ssa.Slice:
+								follow(y, d+1)
+							}
+						}
+					}
+				case *ssa.IndexAddr:
+					// packed into a variadic list
+					if al, ok := a.X.(*ssa.Alloc); ok && al.Referrers() != nil {
+						for _, rr := range *al.Referrers() {
+							if sl, ok := rr.(*ssa.Slice); ok {
+								follow(sl, d+1)
+							}
+						}
+					}
+				}
+			case *ssa.Return:
+				f := x.Parent()
+				idx := -1
+				for i, res := range x.Results {
+					if res == v {
+						idx = i
+					}
+				}
+				for _, site := range callSitesOf(c, f) {
+					cv, ok := site.(ssa.Value)
+					if !ok {
+						continue
+					}
+					if len(x.Results) == 1 {
+						follow(cv, d+1)
+					} else if cv.Referrers() != nil {
+						for _, rr := range *cv.Referrers() {
+							if ex, ok := rr.(*ssa.Extract); ok && ex.Index == idx {
+								follow(ex, d+1)
+							}
+						}
+					}
+				}
+			case *ssa.Call:
+				sc := x.Common().StaticCallee()
+				if sc == nil || sc.Pkg == nil || sc.Pkg.Pkg.Path() != pkgSQL {
+					continue
+				}
+				argIdx := -1
+				for i, a := range x.Common().Args {
+					if a == v {
+						argIdx = i
+					}
+				}
+				switch sc.Name() {
+				case "Ge", "Gt":
+					if argIdx == 1 {
+						if verdict == "" {
+							verdict, where = OK, "right operand of sql."+sc.Name()+" at "+c.pos(x.Pos())
+						}
+					} else {
+						verdict, where = Violation, "left operand of sql."+sc.Name()+" ("+c.pos(x.Pos())+")"
+					}
+				case "Le", "Lt":
+					verdict, where = Violation, "operand of the upper bound sql."+sc.Name()+" ("+c.pos(x.Pos())+")"
+				case "Eq", "Neq":
+					verdict, where = Violation, "operand of sql."+sc.Name()+" ("+c.pos(x.Pos())+")"
+				default:
+					// value wrappers (NewStringVal, NewRawObject, …): the result carries the date
+					follow(x, d+1)
+				}
+			}
+		}
+	}
+	follow(start, 0)
+	return verdict, where
+}
 
 func init() { register(ruleG2, ruleG3) }
 
